@@ -633,6 +633,19 @@ pub fn special_cases() -> Vec<(String, Vec<u8>)> {
         }
         v.push((format!("colour-space-{}", name), rich_doc_with(b"", DocOpts::CLASSIC, &objs)));
     }
+    // encrypted documents (AES-256, revision 6) whose key strings have other lengths than the handler expects; they are
+    // walked without a password here, so the check of the owner password runs
+    for key in ["U", "O", "UE", "OE", "Perms"] {
+        for (lname, f) in [("fivefold", 5usize), ("doubled", 2)] {
+            let mut objs = base_objects(3);
+            if let Some(e) = objs.iter_mut().find(|(n, _)| *n == 90) {
+                if let Some(Val::Str(b)) = e.1.get(key).cloned() {
+                    e.1.set(key, Val::Str(b.iter().cycle().take(b.len() * f).cloned().collect()));
+                    v.push((format!("aes256-{}-{}", key, lname), assemble(3, &objs, None).0));
+                }
+            }
+        }
+    }
     // PostScript calculator operands
     for (name, prog) in [("ps-roll-negative", "{ 1 2 3 3 -1 roll }"), ("ps-roll-huge", "{ 1 2 3 3 2147483647 roll }"), ("ps-roll-n-huge", "{ 1 2 2147483647 1 roll }"), ("ps-index-huge", "{ 1 2147483647 index }"), ("ps-index-negative", "{ 1 -1 index }"), ("ps-pop-empty", "{ pop pop pop }"), ("ps-deep", "{ dup dup dup dup dup dup dup dup dup dup dup dup dup dup dup dup dup dup dup dup }"), ("ps-unbalanced", "{ { 1 }"), ("ps-empty", "")] {
         let mut objs = hostile_objects();
